@@ -5,6 +5,7 @@ package c17
 import (
 	"fmt"
 	"os"
+	"runtime"
 	"strings"
 	"sync"
 	"testing"
@@ -29,6 +30,10 @@ type PeerSpec struct {
 	DelayMs int    `json:"delay_ms,omitempty"`
 	// Ahead: the peer's view is this many blocks above the base.
 	Ahead int `json:"ahead,omitempty"`
+	// DropAtMs > 0: the peer closes its connection at that instant (and
+	// refuses to be dialled again), so callers may be left waiting for
+	// answers nobody is there to give.
+	DropAtMs int `json:"drop_at_ms,omitempty"`
 }
 
 type Caller struct {
@@ -47,7 +52,8 @@ type Case struct {
 	StopAtMs      int           `json:"stop_at_ms"`
 	// StopRace: what happens in the very instant Stop is called (no
 	// quiescence in between): "" | grow (every peer announces N new
-	// blocks) | headers (peer 0 sends the next N headers unsolicited).
+	// blocks) | headers (peer 0 sends the next N headers unsolicited) |
+	// drop (every peer closes its connection).
 	StopRace string `json:"stop_race,omitempty"`
 	RaceN    int    `json:"race_n,omitempty"`
 }
@@ -89,6 +95,7 @@ func genCase(t *rapid.T) Case {
 			ps.DelayMs = kit.Pick(t, "delay", []int{20, 300, 2500, 9000})
 		}
 		ps.Ahead = kit.Pick(t, "ahead", []int{0, 0, 3, 9})
+		ps.DropAtMs = kit.Pick(t, "dropat", []int{0, 0, 0, 0, 1, 40, 1000, 10000})
 		return ps
 	}), 1, 3).Draw(t, "peers")
 	c.Callers = rapid.SliceOfN(rapid.Custom(func(t *rapid.T) Caller {
@@ -102,7 +109,7 @@ func genCase(t *rapid.T) Case {
 	// verif-tag gate in front of that mutex queues the waiters on a channel
 	// instead, so any number of filter users can be generated.
 	c.StopAtMs = kit.Pick(t, "stopat", []int{0, 1, 50, 500, 2000, 7000, 20000, 45000})
-	c.StopRace = kit.Pick(t, "stoprace", []string{"", "grow", "grow", "headers"})
+	c.StopRace = kit.Pick(t, "stoprace", []string{"", "grow", "grow", "headers", "drop"})
 	c.RaceN = rapid.IntRange(1, 8).Draw(t, "racen")
 	return c
 }
@@ -227,16 +234,30 @@ func runCase(t *testing.T, c Case) kit.Verdict {
 		}
 		// advance to the stop instant, starting callers on the way
 		now := 0
+		dropped := make([]bool, len(c.Peers))
 		for now <= c.StopAtMs {
 			for _, st := range states {
 				if !st.started && st.c.AtMs <= now {
 					start(st)
 				}
 			}
+			for i, ps := range c.Peers {
+				if ps.DropAtMs > 0 && !dropped[i] && ps.DropAtMs <= now {
+					dropped[i] = true
+					s.Peers[i].SetRefuse(true)
+					s.Peers[i].Disconnect()
+					v.Class("peer-dropped-before-stop")
+				}
+			}
 			next := c.StopAtMs + 1
 			for _, st := range states {
 				if !st.started && st.c.AtMs < next {
 					next = st.c.AtMs
+				}
+			}
+			for i, ps := range c.Peers {
+				if ps.DropAtMs > 0 && !dropped[i] && ps.DropAtMs < next {
+					next = ps.DropAtMs
 				}
 			}
 			if next > c.StopAtMs {
@@ -288,6 +309,11 @@ func runCase(t *testing.T, c Case) kit.Verdict {
 				}
 			case "headers":
 				s.Peers[0].SendHeaders(w.Batch(kit.Segment(cur.Height, to), -1, ""))
+			case "drop":
+				for _, p := range s.Peers {
+					p.SetRefuse(true)
+					p.Disconnect()
+				}
 			}
 			v.Class("stop-race:%s", c.StopRace)
 		}
@@ -327,6 +353,15 @@ func runCase(t *testing.T, c Case) kit.Verdict {
 		select {
 		case <-stopDone:
 		default:
+			if os.Getenv("VERIF_TRACE") != "" {
+				buf := make([]byte, 4<<20)
+				buf = buf[:runtime.Stack(buf, true)]
+				for _, g := range strings.Split(string(buf), "\n\n") {
+					if strings.Contains(g, "lightninglabs/neutrino") {
+						v.Logf("STACK %s", g)
+					}
+				}
+			}
 			fail("stop-hangs", "Stop did not return within 120 virtual seconds")
 			return
 		}
